@@ -227,7 +227,9 @@ func Main[In any](cfg Config, gen func(f Flags, r *vrand.R, emit func(In)), exec
 		if res.Direct != nil {
 			directs = append(directs, caseRec{I: -1, Origin: items[i].origin, Class: res.Class, Input: inJS, Direct: res.Direct})
 			hist["direct:"+res.Direct.Kind]++
-			continue
+			if res.Term == "" {
+				continue
+			}
 		}
 		if res.Skip {
 			hist["skipped"]++
@@ -240,6 +242,9 @@ func Main[In any](cfg Config, gen func(f Flags, r *vrand.R, emit func(In)), exec
 		}
 		shardTerms = append(shardTerms, string(res.Term))
 		rec := caseRec{I: idx, Origin: items[i].origin, Class: res.Class, Input: inJS, Coq: string(res.Term)}
+		if res.Direct != nil {
+			rec.Class = "" // the class belongs to the direct finding, not to a model mismatch of this case
+		}
 		b, _ := json.Marshal(rec)
 		cw.Write(b)
 		cw.WriteByte('\n')
